@@ -92,18 +92,20 @@ NatMul(x, y) == IF y = <<>> THEN <<>>
                      IN NatAdd(Strip(MulDigit(x, Head(y), 0)), IF rest = <<>> THEN <<>> ELSE <<0>> \o rest)
 
 (* ---- signed integers <<"i", sign, limbs>> ----------------------------- *)
-MkInt(sign, limbs) == IF Strip(limbs) = <<>> THEN <<"i", 0, <<>>>> ELSE <<"i", sign, Strip(limbs)>>
+\* (TLC re-evaluates an operator argument at every use: anything used twice is bound with LET, which is evaluated once)
+MkInt(sign, limbs) == LET l == Strip(limbs) IN IF l = <<>> THEN <<"i", 0, <<>>>> ELSE <<"i", sign, l>>
 Sgn(a) == a[2]
 Mag(a) == a[3]
 IntNeg(a) == MkInt(0 - Sgn(a), Mag(a))
-IntAdd(a, b) ==
+IntAdd(a0, b0) ==
+    LET a == a0  b == b0 IN
     IF Sgn(a) = 0 THEN b ELSE IF Sgn(b) = 0 THEN a
     ELSE IF Sgn(a) = Sgn(b) THEN MkInt(Sgn(a), NatAdd(Mag(a), Mag(b)))
     ELSE LET c == NatCmp(Mag(a), Mag(b))
          IN IF c = 0 THEN MkInt(0, <<>>)
             ELSE IF c > 0 THEN MkInt(Sgn(a), NatSub(Mag(a), Mag(b))) ELSE MkInt(Sgn(b), NatSub(Mag(b), Mag(a)))
 IntSub(a, b) == IntAdd(a, IntNeg(b))
-IntMul(a, b) == MkInt(Sgn(a) * Sgn(b), NatMul(Mag(a), Mag(b)))
+IntMul(a0, b0) == LET a == a0  b == b0 IN MkInt(Sgn(a) * Sgn(b), NatMul(Mag(a), Mag(b)))
 IntCmp(a, b) ==
     IF Sgn(a) # Sgn(b) THEN (IF Sgn(a) < Sgn(b) THEN -1 ELSE 1)
     ELSE IF Sgn(a) = 0 THEN 0 ELSE Sgn(a) * NatCmp(Mag(a), Mag(b))
